@@ -22,7 +22,7 @@ META = {
                    "then projected on grad x = grad psi, grad y and grad z written from the property's definitions.",
     "bounds": "all of psi's first and second partial derivatives, fpol, fpol', R>=1, hy>0, beta (|t|<=3/4 param.) free reals; both signs of Bp; I = 0 and I free",
     "out": "agreement of the 'x-y derivatives' formulation to discretisation error (a limit statement); curvature_smoothing",
-    "assumptions": ["Bpxy^2 = BR^2+BZ^2 and Btxy = fpol/R at the point (what geometry1 computes; decided under C02/C03)",
+    "assumptions": ["|Bpxy| = |grad psi|/R and Btxy = fpol/R at the point (what geometry1 computes; decided under C02/C03); grad psi direction by rational parametrisation",
                     "RectBivariateSpline contract as in C18", "reals not doubles"],
 }
 
@@ -42,9 +42,12 @@ def _mk(orthogonal, bpsign, free_I):
         R, Z = env.real("R", lo=1, hi=99), env.real("Z", lo=-99, hi=99)
         f, fp = env.real("fpol"), env.real("fpolprime")
         hy = env.real("hy", pos=True)
-        bpabs = env.real("Bpabs", pos=True)
+        # grad psi = g*(c, s) with a rationally parametrised unit vector, so that |Bp| = g/R needs no square root and no equality assumption
+        g = env.real("gradpsi_mag", lo=0.1, hi=9)
+        u = env.real("gradpsi_dir", lo=-3, hi=3)
+        tab.pR, tab.pZ = g * (1 - u * u) / (1 + u * u), g * 2 * u / (1 + u * u)
+        bpabs = g / R
         Bxy = env.real("Bxy", pos=True)
-        env.assume(env.close(bpabs * bpabs * R * R, tab.pR * tab.pR + tab.pZ * tab.pZ), "Bp^2 = |grad psi|^2/R^2")
         Bp = bpsign * bpabs
         Ival = env.real("I") if free_I else 0.0
         if not orthogonal:
